@@ -93,6 +93,9 @@ RANGE_CONTAINS = {"core::ops::range::RangeInclusive::<Idx>::contains": "inclusiv
 def range_bounds(crate, body, op):
     """(lo, hi) of a RangeInclusive / Range operand built from constant bounds: a promoted `lo..=hi`, or a range constructed
     in the body from foldable bounds"""
+    folded = fold_range(crate, body, op)
+    if folded is not None:
+        return folded
     r = dt.resolve_copy(body, op)
     # strip reborrows down to the defining constant / statement
     seen = 0
@@ -122,6 +125,62 @@ def range_bounds(crate, body, op):
         vals = [bound_value(crate, body, a) for a in r[1][2]["r"]["ops"]]
         if all(isinstance(v, int) for v in vals):
             return vals[0], vals[1]
+    return None
+
+
+def fold_operand(crate, body, op, depth=0):
+    """value of an operand that depends on constants only (literals, const items evaluated through their initialisers,
+    promoted constants, calls of foldable functions on such values) — by the decision-table interpreter; None otherwise"""
+    from .. import minterp
+    I = minterp.Interp(body.facts, crate, inline=lambda d_, rid: rid.startswith(crate.name + "::"), max_depth=3)
+
+    def ev(o, dep):
+        if dep > 12:
+            raise minterp.Unsupported("depth")
+        if o.get("c") is not None:
+            return I.operand(body, {}, o)
+        p = op_place(o)
+        l = place_local(p)
+        if 1 <= l <= body.argc:
+            raise minterp.Unsupported("parameter")
+        d = dt.single_def(body, l)
+        if d is None:
+            raise minterp.Unsupported("no single definition")
+        if d[1] == "T":
+            base = I.call(body, d[2]["call"], [ev(a, dep + 1) for a in d[2]["args"]], 0)
+        else:
+            r = d[2]["r"]
+            if "use" in r:
+                base = ev(r["use"], dep + 1)
+            elif "ref" in r:
+                base = ev({"cp": r["ref"]}, dep + 1)
+            elif "un" in r or "bin" in r or "cast" in r or "agg" in r:
+                env = {}
+                for k in ("a", "b", "cast"):
+                    if isinstance(r.get(k), dict) and op_place(r[k]) is not None:
+                        env[place_local(op_place(r[k]))] = ev({"cp": place_local(op_place(r[k]))}, dep + 1)
+                for o2 in r.get("ops", []):
+                    if op_place(o2) is not None:
+                        env[place_local(op_place(o2))] = ev({"cp": place_local(op_place(o2))}, dep + 1)
+                base = I.rvalue(body, env, r)
+            else:
+                raise minterp.Unsupported("rvalue")
+        proj = [e for e in place_proj(p) if e != "*"]
+        if proj:
+            return I.place(body, {l: base}, {"l": l, "p": proj})
+        return base
+    try:
+        return ev(op, depth)
+    except (minterp.Unsupported, KeyError, IndexError, TypeError):
+        return None
+
+
+def fold_range(crate, body, op):
+    from .. import minterp
+    v = fold_operand(crate, body, op)
+    if minterp.is_adt(v) and v[1] in ("core::ops::range::RangeInclusive", "core::ops::range::Range") and len(v[3]) >= 2 \
+            and all(isinstance(x, int) and not isinstance(x, bool) for x in v[3][:2]):
+        return v[3][0], v[3][1]
     return None
 
 
@@ -248,6 +307,12 @@ def run(ctx):
                         bounds_seen[b.name] = val
         except consteval.NotConst:
             pass
+        if kind is None:
+            fv = fold_operand(c, b, op)
+            if isinstance(fv, int) and not isinstance(fv, bool) and CMIN <= fv <= CMAX:
+                kind, detail = "K1", f"constant {fv}"
+                if b.argc == 0:
+                    bounds_seen[b.name] = fv
         tr = Tracer(b)
         if kind is None:
             r = dt.resolve_copy(b, op)
@@ -365,7 +430,10 @@ def run(ctx):
                   or (t["call"]["def"] == "core::convert::TryInto::try_into" and len(t["call"]["substs"]) >= 2 and tystr(t["call"]["substs"][1]) == "i64")]
             o5 &= ctx.check(len(tf) == 1, "O5", b.loc(), f"{b.id}|i64-try_from", f"{b.id}: narrowing must go through i64::try_from / try_into::<i64>", instance=f"{b.id}: i64::try_from")
         if b.trait == "core::str::traits::FromStr" and ty_adt(b.self_ty) == SL:
-            ps = [t for _, t in b.calls() if t["call"].get("name") == "parse" and any(tystr(x) == "i64" for x in t["call"]["substs"])]
+            # str::parse::<i64>() or its definition <i64 as FromStr>::from_str(), directly or in a private helper
+            eb_ = inline.expand(co, b, depth=2, pred=lambda cb: cb.d.get("vis") != "pub" and cb.name != "new", lower=True)
+            ps = [t for _, t in eb_.calls() if (t["call"].get("name") == "parse" and "core::str" in t["call"]["def"] and any(tystr(x) == "i64" for x in t["call"]["substs"]))
+                  or (t["call"]["def"] == "core::str::traits::FromStr::from_str" and tystr(t["call"]["substs"][0]) == "i64")]
             o5 &= ctx.check(len(ps) == 1, "O5", b.loc(), f"{b.id}|parse-i64", "FromStr must parse an i64 (failure set lies outside the range)", instance="FromStr: str::parse::<i64>")
         if b.trait == "serde_core::de::Deserialize" and ty_adt(b.self_ty) == SL:
             dz = [t for _, t in b.calls() if t["call"]["def"] == "serde_core::de::Deserialize::deserialize" and tystr(t["call"]["substs"][0]) == "i64"]
